@@ -212,6 +212,15 @@ func enumerate(quick bool, emit func(scenario)) {
 				emit(scenario{Family: "H:captured-lazy-list", Src: "let big=numbers(n-10).map(e->e+1).eval();" + app(t.tmpl, "numbers(n).map(x->slow(x)+big.size())"), N: n, W: w})
 			}
 		}
+		// H3: the same EVALUATED list (it has spare capacity) extended by every worker of a parallel stage: each
+		// result must be a list of its own
+		for _, mk := range []string{"numbers(5).map(e->e+1).eval()", "[1,2,3].append(4)", "numbers(5).map(e->e+1)"} {
+			for _, ext := range []string{"(b+[x]).sum()", "(b+[x])[b.size()]", "b.append(x).sum()", "(b+[x]+[x+1]).size()*1000+(b+[x])[b.size()]", "b.append(x).append(x+1)[b.size()]"} {
+				for _, n := range []int{14, 15} {
+					emit(scenario{Family: "H3:shared-evaluated-list-extended-by-workers", Src: "let b=" + mk + ";numbers(n).map(x->slow(x)*0+" + ext + ").reduce((p,q)->p*31+q)", N: n, W: w})
+				}
+			}
+		}
 		// H2: the SAME lazy list iterated by two goroutines at once — by both operands of a merge, and by two
 		// workers of a parallel mapper through a consumer that does not materialise it — for every stage kind
 		for _, stg := range stages {
@@ -691,7 +700,7 @@ func run(ctx *bex.Ctx) {
 			judge(&st2, rp)
 		}
 	})
-	ctx.SpaceDone("families A (pre x par x post), B (pre x par x terminal), C (par x post x terminal), D (par x terminal x size x failing element), E (merge), F (multiUse), G (nested parallel, thorough), I (groups handed across goroutines), F2 (multiUse consumers that stop at once); all interleavings per scenario, W=2 (thorough: 2,3)")
+	ctx.SpaceDone("families A (pre x par x post), B (pre x par x terminal), C (par x post x terminal), D (par x terminal x size x failing element), E (merge), F (multiUse), G (nested parallel, thorough), H3 (one evaluated list extended by every worker), I (groups handed across goroutines), F2 (multiUse consumers that stop at once); all interleavings per scenario, W=2 (thorough: 2,3)")
 }
 
 func reportRaces(ctx *bex.Ctx, st *vsched.Stats, repro map[string]any) {
